@@ -643,6 +643,20 @@ func genC06(r *Rand, tier string) []Case {
 		}
 		out = append(out, mkCase(doc, q, tags, true))
 	}
+	// long tables with many duplicates: DISTINCT and UNION keep the first occurrence of each row, in order
+	for _, n := range []int{300, 777} {
+		rows := make([]any, n)
+		for i := range rows {
+			rows[i] = map[string]any{"a": float64((i * 7) % 23), "b": []string{"x", "y", "z"}[(i/5)%3]}
+		}
+		doc := map[string]any{"t": rows, "u": rows[:n/3]}
+		sel := func(tb string) *Stmt { return &Stmt{From: &From{K: "table", Path: []string{tb}}, Items: []Item{{Star: true}}} }
+		d := sel("t")
+		d.Distinct = true
+		out = append(out, mkCase(doc, d, []string{"long-table", "distinct"}, true))
+		out = append(out, mkCase(doc, &Stmt{Union: true, All: false, L: sel("t"), R: sel("u"), Limit: intp(40)}, []string{"long-table", "union"}, true))
+		out = append(out, mkCase(doc, &Stmt{Union: true, All: true, L: sel("u"), R: sel("t"), Limit: intp(9), Offset: intp(n)}, []string{"long-table", "union-all"}, true))
+	}
 	return out
 }
 
